@@ -131,6 +131,8 @@ type monitor struct {
 	ledger   map[string]*big.Int // hex id -> applied+added-refunded
 	dirty    bool                // a successful tx since the last flush (iterator may be stale)
 	crafted  bool                // universe contains id' = Sha256^k(id)
+	blockNo  int                 // number of block ends so far in this episode
+	acctSet  map[string]int      // hex id -> block in which its account was last set (apply/chacc accepted)
 	unreal   bool                // episode leaves the documented hypotheses: a balance >= 2^53 tokens or an account that is not 20 bytes
 	notes    map[string]*viol
 	prev     *obsv
@@ -187,7 +189,7 @@ func (m *monitor) classify(clause string, lostRefund bool, allowStale bool) stri
 		return "id-hash-collision"
 	case lostRefund:
 		return "refund-lost-second-account"
-	case allowStale && (m.dirty || m.dupFromStale()):
+	case allowStale && m.dirty:
 		return "stale-iterator-in-block"
 	}
 	return clause
@@ -241,6 +243,8 @@ func (m *monitor) run(line string) string {
 	case "reset":
 		m.script = []string{line}
 		m.ledger = map[string]*big.Int{}
+		m.acctSet = map[string]int{}
+		m.blockNo = 0
 		m.dirty = false
 		m.prev = nil
 		m.unreal = false
@@ -280,6 +284,9 @@ func (m *monitor) run(line string) string {
 	u := func(s string) *big.Int { v, _ := new(big.Int).SetString(s, 10); return v }
 	if isTx && res == "ok" {
 		m.dirty = true
+		if t[0] == "apply" || t[0] == "chacc" {
+			m.acctSet[t[2]] = m.blockNo
+		}
 		switch t[0] {
 		case "apply":
 			led(t[2]).Add(led(t[2]), u(t[4]))
@@ -295,6 +302,7 @@ func (m *monitor) run(line string) string {
 	}
 	if t[0] == "endblock" {
 		m.dirty = false
+		m.blockNo++
 	}
 	if m.prev == nil {
 		m.prev = o
@@ -353,7 +361,17 @@ func (m *monitor) run(line string) string {
 	for k, r := range o.byID {
 		a := hx.Hex(r.account)
 		if other, dup := seen[a]; dup {
-			m.report(m.classify("two-miners-one-account", false, true), fmt.Sprintf("after %s: account %s controls miners %s and %s", line, a, other, k))
+			// known defect only when both got the account inside ONE block (the check could not see the first)
+			key := "two-miners-one-account"
+			if b1, ok1 := m.acctSet[other]; ok1 {
+				if b2, ok2 := m.acctSet[k]; ok2 && b1 == b2 {
+					key = "stale-iterator-in-block"
+				}
+			}
+			if m.crafted {
+				key = "id-hash-collision"
+			}
+			m.report(key, fmt.Sprintf("after %s: account %s controls miners %s and %s", line, a, other, k))
 		}
 		seen[a] = k
 	}
@@ -455,9 +473,9 @@ func runSearch(out *hx.Out, r *hx.Rng, thorough bool) {
 			}
 		}
 	}
-	episodes := 40
+	episodes := 120
 	if thorough {
-		episodes = 500
+		episodes = 1500
 	}
 	st := newGenStats()
 	st.m["searcher"] = 1
